@@ -503,7 +503,8 @@ pub fn load_opts(text: &str, strict: bool) -> Result<Loaded, String> {
                             if strict {
                                 return Err(format!("decommitment for FRI layer {} but the step list has {} layers", l, n_fri_layers));
                             }
-                            ambiguous.push("decommitment line for a FRI layer the step list does not have".into());
+                            // lenient: a line of a layer the step list does not declare belongs to no
+                            // vector the verifier is handed; it is ignored
                             continue;
                         }
                         if k == "Field Element" {
